@@ -108,6 +108,22 @@ def same(a, b):
     return type(a) is type(b) and a == b
 
 
+def snap_cfg(o):
+    """Structural fingerprint of option objects: containers by content, numbers / strings / None by value, arrays by bytes,
+    library objects by their configuration, everything else (functions ...) by identity."""
+    if isinstance(o, dict):
+        return ('dict', tuple((repr(k), snap_cfg(v)) for k, v in o.items()))
+    if isinstance(o, (list, tuple)):
+        return (type(o).__name__, tuple(snap_cfg(x) for x in o))
+    if isinstance(o, np.ndarray):
+        return ('array', o.shape, o.tobytes())
+    if isinstance(o, (str, bytes, numbers.Number)) or o is None:
+        return ('value', type(o).__name__, repr(o))
+    if isinstance(o, ObjectWithSchema):
+        return ('object', type(o).__name__, id(o), snap_cfg(o.config))
+    return ('id', id(o))
+
+
 def brief(o, n=160):
     try:
         s = repr(o)
@@ -1131,6 +1147,26 @@ def judge_config(name, exprs, rec, seed=0, expect=None, label=None, nprobes=None
         obj_d = v if st_d == 'ok' else None
         if st_d != st_kw:
             raise Violation('kwargs-dict/outcome/%s' % name, 'keyword form: %s, dictionary form: %s' % (st_kw, st_d))
+    if expect != 'invalid' and not positional and st_kw == 'ok':
+        # both forms once more, now from the SAME option objects (an author writes the answers list once and hands it to
+        # the keyword form, the dictionary form, a second grader ...): each construction still succeeds, gives an equal
+        # object, and leaves the author's objects as they were (a seeded change normalised the caller's lists in place)
+        vals = {k: ev(e) for k, e in exprs.items()}
+        before = snap_cfg(vals)
+        outs = [call(lambda: NS[name](**vals)), call(lambda: NS[name](dict(vals))), call(lambda: NS[name](**vals))]
+        rec.calls(3)
+        if snap_cfg(vals) != before:
+            raise Violation('kwargs-dict/option-objects-altered/%s' % name, 'constructing %s altered the option objects it was '
+                            'given (%s), so the next form built from them is no longer the same configuration' % (
+                                name, ', '.join(k for k in vals if snap_cfg(vals[k]) != snap_cfg(ev(exprs[k])) ) or '?'))
+        for s2, v2 in outs:
+            if classify(s2, v2) != 'ok':
+                raise Violation('kwargs-dict/shared-objects-rejected/%s' % name, 'a form built from option objects that had '
+                                'already served another construction was rejected: %s' % str(v2)[:200])
+        if lib_equal(outs[0][1], outs[2][1]) is False or not same(outs[0][1].config, outs[2][1].config):
+            raise Violation('kwargs-dict/shared-objects-not-equal/%s' % name, 'first and third construction from the same '
+                            'option objects differ')
+        rec.cls('forms-from-shared-option-objects')
     if expect == 'invalid':
         if st_kw == 'ok':
             raise Violation('accepted-invalid/%s/%s' % (name, label),
